@@ -17,7 +17,7 @@ RULE = ('case = a sim chain of 4..9 blocks with 1..64 real transactions each; fo
 ASSUMPTIONS = ['SHA-256d collision resistance', 'txid of the generated legacy transactions taken from an independent parser (vlib/ref/minitx.py)',
                'mutations that leave the recomputed root unchanged (side flip of a duplicated last node, position bits above the tree depth) '
                'are expected to still verify: the statement\'s criterion is met; counted as ineffective']
-REQUIRED_HITS = ['genuine.accepted', 'genuine.via_single_batch', 'mut.branch_digit', 'mut.pos_bit', 'mut.truncate', 'mut.extend', 'mut.tx_byte',
+REQUIRED_HITS = ['reuse.checked', 'genuine.accepted', 'genuine.via_single_batch', 'mut.branch_digit', 'mut.pos_bit', 'mut.truncate', 'mut.extend', 'mut.tx_byte',
                  'mut.height', 'mut.height_no_header', 'mut.foreign_proof', 'mut.ineffective_still_verifies', 'shape.odd_level', 'shape.single_tx',
                  'shape.64']
 MAXT = (1 << 255) - 1
@@ -206,6 +206,31 @@ async def _run(rec, case):
             rec.case(['genuine', n, idx], nontrivial=n >= 2, sample={'block_txs': n, 'index': idx, 'height': height, 'branch_len': depth,
                                                                       'headers': nh} if idx == 0 else None)
             via = r.random() < 0.3
+            # ---- the same Transaction object checked again after it was verified (multi-step; added after seeded break C08-B):
+            # whatever the object said before, after a check it may only say "verified" if THIS check's proof reaches the header
+            for cls, h2, m2 in (('reuse_bad_branch', height, dict(genuine, merkle=[r.randbytes(32).hex()] + br[1:]) if br else None),
+                                ('reuse_other_height', height % (nh - 1) + 1 if nh > 2 else None, dict(genuine)),
+                                ('reuse_height_no_header', r.choice([0, -1, nh, nh + 7, 10 ** 9]), dict(genuine)),
+                                ('reuse_no_merkle_key_other_height', height % (nh - 1) + 1 if nh > 2 else None, {'block_height': height})):
+                if m2 is None or h2 is None or (h2 == height and cls in ('reuse_other_height', 'reuse_no_merkle_key_other_height')):
+                    continue
+                obj = Transaction(raw, height=height)
+                await ledger.maybe_verify_transaction(obj, height, dict(genuine))
+                if not obj.is_verified:
+                    break
+                try:
+                    await ledger.maybe_verify_transaction(obj, h2, m2)
+                    got2, exc2 = bool(obj.is_verified), None
+                except Exception as e:  # noqa
+                    got2, exc2 = bool(obj.is_verified), e
+                rec.hit('reuse.checked')
+                want2 = expected(raw, h2, m2.get('merkle') or [], m2.get('pos', 0)) if 'merkle' in m2 else False
+                if got2 and not want2:
+                    rec.violation(f'C08/verified-without-valid-proof/{cls}',
+                                  f'a transaction object verified at height {height} was checked again ({cls}: height {h2}) with a proof that does not '
+                                  f'reach a header, and still says verified (height now {obj.height}, headers: {nh})',
+                                  {'class': cls, 'first_height': height, 'second_height': h2, 'n_headers': nh, 'exc': repr(exc2)})
+                rec.case(['reuse', n, idx, cls], nontrivial=True)
             # ---- single mutations
             for level in range(depth):
                 for digit in sorted({0, 63, r.randrange(64)}):
